@@ -13,5 +13,6 @@ CONSTANTS
   Bounded = TRUE
   AllowDirect = FALSE
   AllowAbort = TRUE
+  MaxLeft = 1
 INVARIANTS NoRecordOtherwise
 CHECK_DEADLOCK FALSE
